@@ -3,8 +3,9 @@ import itertools
 
 from core import strip, is_field, key_str, key_mentions
 from facts import AnalysisBroken
-from rules import (nodeset, callpred, ev, Unevaluable, forced_edges, atom_from, one, some, base_var,
+from rules import (field_load, nodeset, callpred, ev, Unevaluable, forced_edges, atom_from, one, some, base_var,
                    is_param_load, is_var_load, is_global_load, is_errno, summary_value, reachable_returns)
+from props import c01
 
 EXPLANATION = (
     "Decides, from the source of fiber_io.c / fiber_event_native.c: (bounds) no caller-supplied descriptor value outside "
@@ -599,8 +600,7 @@ def check_close_event(ctx, P, MV):
             w = pi.dominated_by(c, nodeset(locks))
             if w is not None:
                 bad = bad or ("`%s` outside the fd lock" % c.text[:40], c, w)
-        isev = lambda n: (n.k == "ImplicitCastExpr" and n.ck == "LValueToRValue" and strip(n).k == "MemberExpr"
-                          and strip(n).field == "events" and strip(n).rec == "fd_wait_info")
+        isev = field_load("events", "fd_wait_info")
         a0 = atom_from([(isev, 0)])
         a1 = atom_from([(isev, 1)])
         if any(pi.find_path(locks[0], lambda n, c=c: n is c, edge_ok=forced_edges(pi, a0)) for c in mods):
@@ -689,7 +689,7 @@ def check_setup(ctx, P, MV):
     if len(ors) != 2 or len(fc) != 2:
         bad = "expected two flags_ |= and two real fcntl calls, found %d / %d" % (len(ors), len(fc))
     else:
-        idx = sorted(pp.key(strip(x.target).kids[0].kids[1], True)[2][1] if False else key_str(pp.target_key(x.target)) for x in ors)
+        idx = sorted(key_str(pp.target_key(x.target, True)) for x in ors)
         if len(set(idx)) != 2 or any(strip(x.value).cv != (B | W) for x in ors):
             bad = "the two ends are not both recorded with BLOCKING|WAITABLE (%s)" % idx
         ends = sorted(key_str(pp.key(pp.args(c)[0], True)) for c in fc)
@@ -766,6 +766,9 @@ def check_table_size(ctx, P, MV):
 
 def run(ctx):
     P = ctx.prog()
+    c01.core_dependency(ctx, P, "core.dep", ('fiber_sleep', 'fiber_wait_for_event', 'fiber_event_wake_waiters', 'fiber_event_wake_sleepers', 'fiber_poll_events_internal'),
+                        'the descriptor wait path (fiber_wait_for_event / fiber_event_wake_waiters)',
+                        'a fiber blocked on a descriptor that is resumed early re-issues the call on a stale stack; one never scheduled hangs the shim')
     MV = macro_values(P)
     ctx.derived["constants"] = {k: MV[k] for k in ("EAGAIN", "MSG_DONTWAIT", "O_NONBLOCK", "F_SETFL", "FIONBIO")}
     check_bounds(ctx, P)
